@@ -2,6 +2,7 @@
 under SimActorSystem, TLC validation of every recorded execution."""
 import glob
 import os
+import sys
 import random
 import re
 
@@ -9,7 +10,7 @@ from .. import racetrace, tlc, tracecheck
 from ..core import Violation
 from ..tlaparse import parse_value, to_json
 
-C01_CLAUSES = {"Barrier", "AtMostOnce", "ExactlyOnceAtEnd", "CompleteOnce", "CompletedByNamed", "CompletedByEnds", "NoCrossElementCut", "NoStall", "NoHang"}
+C01_CLAUSES = {"Barrier", "AtMostOnce", "ExactlyOnceAtEnd", "CompleteOnce", "CompletedByNamed", "CompletedByEnds", "NoSpuriousFailure", "NoCrossElementCut", "NoStall", "NoHang"}
 C07_CLAUSES = {"SampleConservation", "AllSamplesAtRaceControl", "OnlyFullQueueDrops", "FinalRecords"}
 
 _ACT = re.compile(r"^/\\ act = (\[.*?\])\s*$", re.M | re.S)
@@ -128,6 +129,12 @@ def run_races(ctx, out, jobs, clauses, label):
             req_variant=job.get("req_variant", "conn_error"),
             fault_delay=job.get("fault_delay", 0),
         )
+        if os.environ.get("VERIF_DEBUG_RACE") == tid:
+            import logging
+
+            logging.basicConfig(level=logging.DEBUG, stream=sys.stdout, force=True)
+            logging.disable(logging.NOTSET)
+            os.environ["VERIF_KEEP_LOGGING"] = "1"
         try:
             tr.start()
             f, s = tr.run(job["script"], random.Random(job["seed"] * 7919 + 13), max_events=job.get("max_events", 400))
@@ -150,7 +157,7 @@ def run_races(ctx, out, jobs, clauses, label):
     t1 = _t.time()
     out.note("%d races executed on the real actors in %.1fs (%d events)" % (len(jobs), t1 - t0, sum(len(t["events"]) for ts in groups.values() for t in ts)))
     for (test_mode, qmax), traces in sorted(groups.items(), key=str):
-        v = tracecheck.validate("RaceDriver", "TraceRaceDriver", "TraceRaceDriver.cfg", traces, name="racetrace", cfg_text=trace_cfg(test_mode, qmax), chunk=60, timeout=1200)
+        v = tracecheck.validate("RaceDriver", "TraceRaceDriver", "TraceRaceDriver.cfg", traces, name="racetrace", cfg_text=trace_cfg(test_mode, qmax), chunk=60, timeout=1200, skip_field="skipL2")
         out.states += v.n_events
         out.transitions += v.n_events
         bad = set()
@@ -169,12 +176,16 @@ def run_races(ctx, out, jobs, clauses, label):
             job, trace = index[tid]
             ln = lines[0]
             ev = trace["events"][ln - 1]["ev"] if ln >= 1 else "Init"
-            out.drift.append("trace %s: event %d (%s) is not the %s step of RaceDriver.tla" % (tid, ln, ev, ev))
+            why = " (recorded state outside the model's domain: %s)" % v.eval_errors[tid][0][1] if tid in getattr(v, "eval_errors", {}) else ""
+            out.drift.append("trace %s: event %d (%s) is not the %s step of RaceDriver.tla%s" % (tid, ln, ev, ev, why))
             if os.environ.get("VERIF_DEBUG_DRIFT"):
                 import json
 
                 prev = trace["init"] if ln <= 1 else trace["events"][ln - 2]["st"]
                 cur = trace["events"][ln - 1]["st"] if ln >= 1 else trace["init"]
+                if os.environ.get("VERIF_DEBUG_DRIFT", "").startswith("/"):
+                    with open(os.path.join(os.environ["VERIF_DEBUG_DRIFT"], tid + ".json"), "w", encoding="utf-8") as f:
+                        json.dump({"job": job, "trace": trace}, f)
                 print("DRIFT", tid, ln, ev, trace["events"][ln - 1]["arg"] if ln >= 1 else "", "job", {k: v for k, v in job.items() if k not in ("script", "scn")})
                 for k in cur:
                     if prev[k] != cur[k]:
@@ -208,7 +219,7 @@ def binding_selftest(out, index):
     k3 = next(i for i, e in enumerate(t3["events"]) if e["ev"] == "DRecvJoinPointReached")
     t3["events"][k3]["st"]["drv"]["completed"] += 1  # a scalar is off by one
     mutants.append(t3)
-    v = tracecheck.validate("RaceDriver", "TraceRaceDriver", "TraceRaceDriver.cfg", mutants, name="racebind", cfg_text=trace_cfg(job["test_mode"], job["qmax"]))
+    v = tracecheck.validate("RaceDriver", "TraceRaceDriver", "TraceRaceDriver.cfg", mutants, name="racebind", cfg_text=trace_cfg(job["test_mode"], job["qmax"]), skip_field="skipL2")
     missed = [m["id"] for m in mutants if m["id"] not in v.l2 and m["id"] not in v.l1]
     if missed:
         raise tlc.MachineryError("binding self-test failed: corrupted traces accepted: %s" % missed)
